@@ -368,8 +368,9 @@ static int read_abk_pattern(HIO_HANDLE *f, struct xmp_event *events, uint32 patt
         /* read the data for the next pass round the loop */
         patdata = hio_read16b(f);
 
-        /* check for an EOF while reading */
-        if (hio_eof(f))
+        /* check for an EOF while reading (hio_eof() is also true after a
+         * complete read that ends at the last byte of a memory stream) */
+        if (hio_error(f))
         {
             break;
         }
